@@ -25,3 +25,7 @@ register(Unit(P, "ATOMIC/LocalStorageBackend.write_file-faults", _c16.h_write_fi
 
 from contracts import helpers as _HLP  # noqa: E402
 _HLP.register_under("C04", ["HELPER/_deep_copy_metadata"])
+
+
+from contracts import C20_storage as _c20  # noqa: E402
+_c20.register_cas_map_under(P)
